@@ -27,6 +27,7 @@ import (
 	"fmt"
 	"math"
 	"os"
+	"regexp"
 	"sort"
 	"strconv"
 	"strings"
@@ -51,7 +52,7 @@ type c03Obj struct {
 }
 
 type c03Event struct {
-	Kind  string `json:"kind"` // mut delta tick cmd tpflip tprefresh
+	Kind  string `json:"kind"` // mut delta tick resume cmd tpflip tprefresh
 	Svc   bool   `json:"svc,omitempty"`
 	K     int    `json:"k,omitempty"`
 	T     int    `json:"t,omitempty"`
@@ -100,6 +101,7 @@ type c03Row struct {
 type c03Obs struct {
 	hosts, svcs []c03Row
 	tps         []int64
+	windows     []int64 // lower, upper bound of every delta fetch of a complete update run; [-1]: not compared
 }
 
 var c03ScanCols = []string{"scheduled_downtime_depth", "acknowledged", "active_checks_enabled", "notifications_enabled", "modified_attributes"}
@@ -349,13 +351,57 @@ type c03Runner struct {
 	peer    *Peer
 	backend *vBackend
 	ver     [2][]int // version counters per table
-	vlu     int      // Peer.lastUpdate in virtual seconds (0 = never)
+	vlu     int      // Peer.lastUpdate in virtual seconds (0 = never), read back from the peer after every step
+	foreign bool     // Peer.lastUpdate holds a value outside the virtual time domain (left as lmd wrote it)
+	windows []int64  // window bounds of the delta fetches the backend received in the current step
 	vlf     [2]int   // lastFullHostUpdate / lastFullServiceUpdate in virtual seconds (0 = never)
 	notes   []string
 }
 
 func (r *c03Runner) note(format string, args ...interface{}) {
 	r.notes = append(r.notes, fmt.Sprintf(format, args...))
+}
+
+// readLastUpdate takes Peer.lastUpdate as lmd left it: the next window starts where lmd's own bookkeeping says.
+func (r *c03Runner) readLastUpdate() {
+	val := r.peer.lastUpdate.Get()
+	switch {
+	case val == 0:
+		r.vlu, r.foreign = 0, false
+	case val > c03Base-1000000 && val < c03Base+50000000 && val == math.Floor(val):
+		r.vlu, r.foreign = int(val)-c03Base, false
+	default:
+		r.foreign = true
+	}
+}
+
+var c03WindowRe = regexp.MustCompile(`Filter: (last_check|last_update|lmd_last_cache_update) >= (-?\d+)\nFilter: (last_check|last_update|lmd_last_cache_update) < (-?\d+)\n`)
+
+// collectWindows reads the window bounds of the hosts/services delta fetches out of the backend's query log.
+func (r *c03Runner) collectWindows(before int) {
+	log := r.backend.QueryLog()
+	r.windows = []int64{}
+	for _, query := range log[min(before, len(log)):] {
+		if !strings.HasPrefix(query, "GET hosts\n") && !strings.HasPrefix(query, "GET services\n") {
+			continue
+		}
+		match := c03WindowRe.FindStringSubmatch(query)
+		if match == nil || match[1] != match[3] {
+			continue
+		}
+		lower, _ := strconv.ParseInt(match[2], 10, 64)
+		upper, _ := strconv.ParseInt(match[4], 10, 64)
+		r.windows = append(r.windows, c03Rel(lower), c03Rel(upper))
+	}
+}
+
+// c03Rel: a backend side timestamp in virtual seconds; what is next to the wall clock is reported as 0 ("now").
+func c03Rel(abs int64) int64 {
+	if math.Abs(float64(abs)-currentUnixTime()) < 100000 {
+		return 0
+	}
+
+	return abs - c03Base
 }
 
 func (r *c03Runner) fullFields() [2]*atomicFloat64 {
@@ -507,6 +553,7 @@ func (r *c03Runner) mutate(ev *c03Event) {
 func (r *c03Runner) step(ctx context.Context, ev *c03Event) {
 	peer := r.peer
 	r.backend.SetMode(vModeOK)
+	r.windows = []int64{-1} // no complete update run in this step: nothing to compare
 	switch ev.Kind {
 	case "mut":
 		r.mutate(ev)
@@ -521,52 +568,71 @@ func (r *c03Runner) step(ctx context.Context, ev *c03Event) {
 		expect := r.armAbort(ev.Ab, ev.Until)
 		before := r.backend.QueryCount()
 		err := data.UpdateDelta(ctx, c03Abs(ev.From), c03Abs(ev.Until))
+		if ev.Ab == "" {
+			r.collectWindows(before)
+		}
 		r.finishAbort(ev.Ab, expect, before, err)
 		r.afterScan(ev.Until, set)
-		if ev.Ab == "" && err == nil {
-			r.vlu = ev.Until
-		}
-		peer.lastUpdate.Set(c03Abs(r.vlu))
+		r.readLastUpdate() // no correction: the next periodicUpdate starts its window where UpdateDelta left lastUpdate
 	case "tick":
-		due := r.vlu == 0 || ev.Now-r.vlu >= r.in.Interval
+		due := r.foreign || r.vlu == 0 || ev.Now-r.vlu >= r.in.Interval
 		for time.Now().Second() == 59 && time.Now().Nanosecond() > 400e6 {
 			time.Sleep(50 * time.Millisecond)
 		}
 		peer.lastTimeperiodUpdateMinute.Store(int32(time.Now().Minute()))
 		if !due {
+			kept := peer.lastUpdate.Get()
 			shifted := currentUnixTime() - float64(ev.Now-r.vlu) + 0.3
 			peer.lastUpdate.Set(shifted)
 			before := r.backend.QueryCount()
 			ok, err := peer.periodicUpdate(ctx)
 			if ok || err != nil || r.backend.QueryCount() != before || peer.lastUpdate.Get() != shifted {
 				r.note("periodicUpdate ran although not due")
-				r.vlu = ev.Now
 			}
-			peer.lastUpdate.Set(c03Abs(r.vlu))
+			peer.lastUpdate.Set(kept)
 
 			return
 		}
 		set := r.prepareScan(ev.Now)
 		expect := r.armAbort(ev.Ab, ev.Now)
 		before := r.backend.QueryCount()
-		peer.lastUpdate.Set(c03Abs(r.vlu))
+		kept := peer.lastUpdate.Get()
 		ok, err := peer.periodicUpdate(ctx)
-		if !ok {
+		if !ok && !r.foreign {
 			r.note("periodicUpdate did not run although due")
+		}
+		if ev.Ab == "" {
+			r.collectWindows(before)
 		}
 		r.finishAbort(ev.Ab, expect, before, err)
 		r.afterScan(ev.Now, set)
-		if peer.lastUpdate.Get() != c03Abs(r.vlu) {
-			r.vlu = ev.Now
+		// periodicUpdate writes the wall clock (its `now`): that instant is the virtual second ev.Now
+		if val := peer.lastUpdate.Get(); val != kept && math.Abs(val-currentUnixTime()) < 1000 {
+			peer.lastUpdate.Set(c03Abs(ev.Now))
 		}
-		peer.lastUpdate.Set(c03Abs(r.vlu))
+		r.readLastUpdate()
+	case "resume":
+		// ResumeFromIdle (what the first client query does to an idling peer): timeperiods, then
+		// UpdateDelta(lastUpdate, wall clock); a peer that is not up only schedules its next update
+		set := r.prepareScan(ev.Now)
+		before := r.backend.QueryCount()
+		kept := peer.lastUpdate.Get()
+		peer.idling.Store(true)
+		if err := peer.ResumeFromIdle(ctx); err != nil {
+			r.note("ResumeFromIdle: %s", err)
+		}
+		r.collectWindows(before)
+		r.afterScan(ev.Now, set)
+		// wall clock values written by lmd (now, or now - UpdateInterval) are moved to the virtual now
+		if val := peer.lastUpdate.Get(); val != kept && math.Abs(val-currentUnixTime()) < 1000 {
+			peer.lastUpdate.Set(c03Abs(ev.Now) - math.Round(currentUnixTime()-val))
+		}
+		r.readLastUpdate()
 	case "cmd":
 		if err := peer.SendCommands(ctx, []string{"COMMAND [1] VERIF_NOOP"}); err != nil {
 			r.note("command failed: %s", err)
 		}
-		if peer.lastUpdate.Get() == 0 {
-			r.vlu = 0
-		}
+		r.readLastUpdate()
 		for i, field := range r.fullFields() {
 			if field.Get() == 0 {
 				r.vlf[i] = 0
@@ -684,6 +750,7 @@ func c03RunCase(idx int, in *c03Input) (obs []c03Obs, notes []string) {
 		if o.tps, err = c03GetTps(lmd, in); err != nil {
 			run.note("GET timeperiods: %s", err)
 		}
+		o.windows = run.windows
 		obs = append(obs, o)
 	}
 
@@ -769,6 +836,8 @@ func c03Coq(idx int, in *c03Input, obs []c03Obs, fixed bool) string {
 			events = append(events, fmt.Sprintf("xD %d %d %s", ev.From, ev.Until, c03AbortCoq(ev.Ab)))
 		case "tick":
 			events = append(events, fmt.Sprintf("xT %d %s", ev.Now, c03AbortCoq(ev.Ab)))
+		case "resume":
+			events = append(events, fmt.Sprintf("xR %d", ev.Now))
 		case "cmd":
 			events = append(events, "ECmd")
 		case "tpflip":
@@ -789,9 +858,14 @@ func c03Coq(idx int, in *c03Input, obs []c03Obs, fixed bool) string {
 		prev = cur
 	}
 
-	return fmt.Sprintf("Definition c%d : case := xCase (mkCfg %s %s %s %d %d %s) %d %s %s %s %s %s.\n", idx,
+	wins := make([]string, 0, len(obs))
+	for i := range obs {
+		wins = append(wins, c03ZList(obs[i].windows))
+	}
+
+	return fmt.Sprintf("Definition c%d : case := xCase (mkCfg %s %s %s %d %d %s) %d %s %s %s %s %s %s.\n", idx,
 		coqBool(in.Cache), coqBool(in.LU), coqBool(in.Sync), in.Off, in.Interval, coqBool(fixed), in.T0,
-		c03ObjsCoq(in.Hosts), c03ObjsCoq(in.Svcs), c03ZList(c03Ints(in.Tps)), coqList(events), coqList(os))
+		c03ObjsCoq(in.Hosts), c03ObjsCoq(in.Svcs), c03ZList(c03Ints(in.Tps)), coqList(events), coqList(os), coqList(wins))
 }
 
 // c03CodeIsRepaired: the model is compared with the pinned behaviour of prepareDataUpdateSet
